@@ -48,20 +48,6 @@ theorem noBodyEncoder_eq (c : Ctx) (declared : List (String × Option S)) (heade
         | none => false)) := by
   rfl
 
-theorem reencodedUnchanged_eq (c : Ctx) (declared : List (String × Option S)) (header : String) (cd : Codec) (data : Bytes) :
-    ReencodedUnchanged c declared header cd data =
-      (c.setDefaults &&
-       (match contentGet (declared.map (·.1)) header with
-        | some key =>
-          (match schemaOf key declared with
-           | some (some s) =>
-             (match decoded header cd data with
-              | some v => DiscardedCandidateTouches c s v
-              | none => false)
-           | _ => false)
-        | none => false)) := by
-  rfl
-
 theorem schemaOf_wf (key : String) : ∀ (declared : List (String × Option S)) (s : S), declaredWf declared = true →
     schemaOf key declared = some (some s) → wf s = true
   | [], _, _, h => by simp [schemaOf] at h
@@ -90,42 +76,15 @@ theorem relOK_strKept (c : Ctx) : RelOK c strKept where
 theorem visit_str (c : Ctx) (s : S) (t : String) (v' : J) (h : visit c s (.str t) = some v') : v' = .str t :=
   visit_rel (relOK_strKept c) s (.str t) v' h t rfl
 
-/-- a string is never an object: nothing is touched -/
-theorem touched_str (c : Ctx) (t : String) : ∀ s, touched c s (.str t) = false := by
-  intro s
-  induction s using S.induct with
-  | leaf a ty => rw [touched_leaf]
-  | obj a req props addl _ => rw [touched.eq_def]
-  | arr a items _ => rw [touched.eq_def]
-  | comb a k bs ih =>
-    rw [touched_comb]
-    simp only [J.isNull, Bool.false_eq_true, ↓reduceIte]
-    have h1 : ∀ (l : List S), (∀ b ∈ l, touched c b (.str t) = false) → touchedEach c l (.str t) = false := by
-      intro l; induction l with
-      | nil => intro _; rfl
-      | cons b r ihr => intro h; simp [touchedEach, h b (by simp), ihr (fun b' hb => h b' (by simp [hb]))]
-    have h2 : ∀ (l : List S), (∀ b ∈ l, touched c b (.str t) = false) → touchedUntilMatch c l (.str t) = false := by
-      intro l; induction l with
-      | nil => intro _; rfl
-      | cons b r ihr =>
-        intro h
-        simp only [touchedUntilMatch, h b (by simp), Bool.false_or]
-        split
-        · rfl
-        · exact ihr (fun b' hb => h b' (by simp [hb]))
-    have h3 : ∀ (l : List S), (∀ b ∈ l, touched c b (.str t) = false) → touchedChain c l (.str t) = false := by
-      intro l; induction l with
-      | nil => intro _; rfl
-      | cons b r ihr =>
-        intro h
-        simp only [touchedChain, h b (by simp), Bool.false_or]
-        cases hv : visit c b (.str t) with
-        | none => rfl
-        | some v1 => simp only; rw [visit_str c b t v1 hv]; exact ihr (fun b' hb => h b' (by simp [hb]))
-    cases k with
-    | oneOf => exact h1 bs ih
-    | anyOf => exact h2 bs ih
-    | allOf => exact h3 bs ih
+/-- a string is never an object: an accepted visit of it sets no default -/
+theorem touched_str (c : Ctx) (s : S) (t : String) (v' : J) (h : visit c s (.str t) = some v') :
+    touched c s (.str t) = false := by
+  cases ht : touched c s (.str t) with
+  | false => rfl
+  | true =>
+    have := touched_grows c s (.str t) v' h ht
+    rw [visit_str c s t v' h] at this
+    omega
 
 theorem J.beq_refl : ∀ (a : J), J.beq a a = true := by
   intro a
